@@ -3,17 +3,38 @@
 // here: sanitizer silence, documented status range, input immutability, allocator ledger.
 #include "gen.hpp"
 #include "decode_oracle.hpp"
+#include <sys/mman.h>
 using namespace vf;
 
 static const lib::Registry* REG;
 static void setup() { Case c; c.set("phase", "setup"); set_current(c); deps::inject(0); REG = &lib::Registry::get(); }
 
-// case: kind=phrase s coin lenient allocfail | kind=password s | kind=load buf allocfail
+// A NUL-terminated ASCII string of `total` bytes that costs 4 MiB of memory: one 2 MiB shared block mapped over and over,
+// followed by a private block that carries the terminator ("any length" includes lengths beyond INT_MAX and UINT_MAX).
+static char* giant_string(size_t total, char fill) {
+    const size_t B = 2u << 20; int fd = memfd_create("giant", 0); if (fd < 0 || ftruncate(fd, (off_t)B) != 0) return nullptr;
+    char* one = (char*)mmap(nullptr, B, PROT_READ | PROT_WRITE, MAP_SHARED, fd, 0); if (one == MAP_FAILED) return nullptr; memset(one, fill, B); munmap(one, B);
+    size_t full = total / B, rest = total % B; char* base = (char*)mmap(nullptr, (full + 1) * B, PROT_NONE, MAP_PRIVATE | MAP_ANONYMOUS | MAP_NORESERVE, -1, 0); if (base == MAP_FAILED) return nullptr;
+    for (size_t i = 0; i < full; i++) if (mmap(base + i * B, B, PROT_READ, MAP_SHARED | MAP_FIXED, fd, 0) == MAP_FAILED) return nullptr;
+    char* last = (char*)mmap(base + full * B, B, PROT_READ | PROT_WRITE, MAP_PRIVATE | MAP_ANONYMOUS | MAP_FIXED, -1, 0); if (last == MAP_FAILED) return nullptr; memset(last, fill, rest); last[rest] = 0;
+    close(fd); return base;
+}
+// case: kind=phrase s coin lenient allocfail | kind=password s | kind=load buf allocfail | kind=giant len
 static std::string oracle(const Case& c) {
     deps::Kit& k = deps::kit(0); k.reset_all(); Evidence& ev = W().ev; polyseed_enable_features((unsigned)c.u("mask", 7)); k.lenient = c.u("lenient") != 0;
     std::string kind = c.get("kind", "phrase"); std::string s = c.bytes("s"); s = s.substr(0, s.find('\0'));
     bool nonascii = false; for (unsigned char ch : s) if (ch >= 0x80) nonascii = true;
     bool near = s.size() + 8 >= POLYSEED_STR_SIZE && s.size() <= POLYSEED_STR_SIZE + 8; std::string nf = model::valid_utf8(s) ? model::nfkd(s) : s; bool near_n = nf.size() + 8 >= POLYSEED_STR_SIZE && nf.size() <= POLYSEED_STR_SIZE + 8;
+    if (kind == "giant") { // an enormous ASCII input: every entry point must treat it like any other over-long string (only its head can matter)
+        size_t total = (size_t)c.u("len"); char* g = giant_string(total, 'a'); if (!g) { ev.count("discard:giant-string-not-mappable"); return ""; }
+        polyseed_data* sd = nullptr; const polyseed_lang* lo = nullptr; int st = polyseed_decode(g, (polyseed_coin)0, &lo, &sd); if (st == 0) polyseed_free(sd);
+        if (st != model::NUM_WORDS) return "decode of a " + std::to_string(total) + "-byte string without any separator returned " + model::status_name(st) + " instead of NUM_WORDS";
+        st = polyseed_decode_explicit(g, (polyseed_coin)0, REG->at(0).lang, &sd); if (st == 0) polyseed_free(sd); if (st != model::NUM_WORDS) return std::string("decode_explicit of a giant string returned ") + model::status_name(st);
+        k.rand_bytes.assign(19, 0x21); polyseed_data* s1 = nullptr; if (polyseed_create(0, &s1) != 0) return "create failed"; k.kdf.clear(); polyseed_crypt(s1, g);
+        std::string m; if (k.kdf.size() != 1 || k.kdf[0].pwlen > POLYSEED_STR_SIZE - 1) m = "crypt with a " + std::to_string(total) + "-byte password passed " + (k.kdf.empty() ? std::string("nothing") : std::to_string(k.kdf[0].pwlen) + " bytes") + " to the KDF";
+        polyseed_free(s1); munmap(g, (total / (2u << 20) + 1) * (2u << 20)); if (!m.empty()) return m;
+        ev.eval(); ev.nt(c); ev.count("giant-input(>=2GiB)"); ev.sample("giant", c); return "";
+    }
     if (kind == "phrase") {
         dor::Result r; std::string m = dor::check(s, (unsigned)c.u("coin") & 2047u, c.u("allocfail") != 0, &r, true); if (!m.empty()) return m;
         bool reached = !r.E.empty() && r.E[0] != model::NUM_WORDS;
@@ -49,6 +70,7 @@ static std::string pad_to(std::string s, size_t target, const std::string& unit)
 
 static void run() {
     setup(); Args& a = W().args;
+    if (a.worker < 3) { static const uint64_t lens[3] = {(1ull << 31) + (1u << 20) + 7, (1ull << 32) + (1u << 20) + 11, (1ull << 31) - 1}; Case c; c.set("kind", "giant"); c.set("len", lens[a.worker]); set_current(c); std::string m = oracle(c); if (!m.empty() && enum_fail(c, m)) return; }
     rc_run("c14-lengths", a.n(6000, 200000), 100, [&]() {
         // strings whose raw or normalised length sits at POLYSEED_STR_SIZE-3 .. +3, in ASCII (library's own truncation) and multi-byte text (normaliser path)
         const lib::LangEntry& le = REG->at(*g::lang_index()); const lib::LibWords& lw = lib::lib_words(le); RC_PRE(lw.ok);
